@@ -2,9 +2,9 @@ import MqttVerif.Conn.Lemmas.AliasStep
 /-!
 # C12 helpers: the two `publish_send_count += 1` sites never wrap (agent P6)
 
-`CWS c c'`: the call from `c` to `c'` does not raise a counter panic provided at most 65535
+`CWS c c'`: the call from `c` to `c'` does not raise a counter panic provided at most 4294967295
 packets are stored, and does not grow the store (so that `send_stored`, which may follow in the
-same call, still sees at most 65535 entries).
+same call, still sees at most 4294967295 entries).
 -/
 set_option linter.unusedSimpArgs false
 set_option linter.unusedVariables false
@@ -12,7 +12,7 @@ namespace MqttVerif.Conn
 open MqttVerif
 
 structure CWS (c c' : C) : Prop where
-  cp : c.s.store.length ≤ 65535 → cpOf c'.s.panic = cpOf c.s.panic
+  cp : c.s.store.length ≤ 4294967295 → cpOf c'.s.panic = cpOf c.s.panic
   len : c'.s.store.length ≤ c.s.store.length
 
 theorem CWS.refl (c : C) : CWS c c := ⟨fun _ => rfl, Nat.le_refl _⟩
@@ -65,7 +65,7 @@ theorem cws_connackRecvProp (c : C) (id v : Nat) : CWS c (connackRecvProp c id v
     | exact CWS.of_frames (by simp [OtherSite, siteStored, sitePublish]) (by simp)
     | exact CWS.of_frames (by simp [clearStoreRelated]) (by simp [clearStoreRelated])
 
-/-- `send_stored` recounts from zero; with at most 65535 stored packets the counter cannot wrap -/
+/-- `send_stored` recounts from zero; with at most 4294967295 stored packets the counter cannot wrap -/
 theorem cws_sendStored (c : C) : CWS c (sendStored c) := by
   have hsub := (sendStoredLoop_sub (resetCount c) c.s.store).length_le
   rw [sendStored_eq]
@@ -223,18 +223,18 @@ theorem not_blocked_lt {s : St} {p : Pkt} (hb : sendBlocked s p = false) (hq : p
 
 theorem tail_count (c : C) (q : Pkt) (rel : Option Nat) :
     (psV5PublishTail c q rel).s.sendCount =
-      if q.qos > 0 ∧ c.s.sendMax.isSome then (c.s.sendCount + 1) % 65536 else c.s.sendCount := by
+      if q.qos > 0 ∧ c.s.sendMax.isSome then (c.s.sendCount + 1) % 4294967296 else c.s.sendCount := by
   unfold psV5PublishTail; dsimp only
   (repeat' split) <;> simp_all [C.setPanic]
 
 theorem tail_cp (c : C) (q : Pkt) (rel : Option Nat)
-    (h : q.qos > 0 → c.s.sendMax.isSome → c.s.sendCount < 65535) :
+    (h : q.qos > 0 → c.s.sendMax.isSome → c.s.sendCount < 4294967295) :
     cpOf (psV5PublishTail c q rel).s.panic = cpOf c.s.panic := by
   unfold psV5PublishTail; dsimp only
   split
   · rename_i hc
     have := h hc.1 hc.2
-    have h1 : ¬ c.s.sendCount ≥ 65535 := by omega
+    have h1 : ¬ c.s.sendCount ≥ 4294967295 := by omega
     simp only [h1, if_false]
     split <;> simp
   · split <;> simp
@@ -247,7 +247,7 @@ theorem psV5PublishAlias_cp (c : C) (p : Pkt) (rel : Option Nat) (v : Bool)
   · simp
   · rename_i hb
     have hb' : sendBlocked c.s p = false := by simpa using hb
-    have hlt : p.qos > 0 → c.s.sendMax.isSome → c.s.sendCount < 65535 := by
+    have hlt : p.qos > 0 → c.s.sendMax.isSome → c.s.sendCount < 4294967295 := by
       intro hq hs
       obtain ⟨M, hM'⟩ := Option.isSome_iff_exists.1 hs
       have := not_blocked_lt hb' hq hM'
@@ -283,11 +283,11 @@ theorem psV5Publish_cp (c : C) (p : Pkt) (hM : ∀ M, c.s.sendMax = some M → M
 
 /-! ## dispatch: no call raises a counter panic -/
 
-/-- the two standing assumptions: the peer's Receive Maximum is a `u16`, at most 65535 packets
+/-- the two standing assumptions: the peer's Receive Maximum is a `u16`, at most 4294967295 packets
     are stored -/
 structure WrapPre (s : St) : Prop where
   max : ∀ M, s.sendMax = some M → M ≤ 65535
-  len : s.store.length ≤ 65535
+  len : s.store.length ≤ 4294967295
 
 theorem restorePackets_cp (c : C) (ps : List Pkt) : cpOf (restorePackets c ps).s.panic = cpOf c.s.panic := by
   induction ps generalizing c with
@@ -487,8 +487,8 @@ theorem sendPostProcess_noerr (c : C) (x : Nat) (h : Ev.error x ∈ (sendPostPro
 
 def tailCount (c : C) (q : Pkt) : C :=
   if q.qos > 0 ∧ c.s.sendMax.isSome then
-    (if c.s.sendCount ≥ 65535 then c.setPanic "core.rs:process_send_v5_0_publish:publish_send_count+=1" else c)
-    |> fun c => { c with s := { c.s with sendCount := (c.s.sendCount + 1) % 65536 } }
+    (if c.s.sendCount ≥ 4294967295 then c.setPanic "core.rs:process_send_v5_0_publish:publish_send_count+=1" else c)
+    |> fun c => { c with s := { c.s with sendCount := (c.s.sendCount + 1) % 4294967296 } }
   else c
 
 theorem tail_eq (c : C) (q : Pkt) (rel : Option Nat) : psV5PublishTail c q rel =
@@ -536,7 +536,7 @@ theorem psV5Publish_accepted (c : C) (p : Pkt) (id M : Nat) (hsz : sizeOk c p = 
     intro c1 rel e1 e2 e3 e4
     have hnb : sendBlocked c1.s p = false := by
       unfold sendBlocked; simp [e1, e2, hM]; omega
-    have hmod : (c.s.sendCount + 1) % 65536 = c.s.sendCount + 1 := Nat.mod_eq_of_lt (by omega)
+    have hmod : (c.s.sendCount + 1) % 4294967296 = c.s.sendCount + 1 := Nat.mod_eq_of_lt (by omega)
     rw [psV5PublishAlias_eq]
     simp only [hnb, Bool.false_eq_true, if_false, ht']
     split
@@ -676,7 +676,7 @@ theorem prPubcomp_credit (c : C) (p : Pkt) (hv : p.ver = 5) (hin : p.pid.getD 0 
     simp [this]
 
 /-- on resume the counter equals the number of stored packets that are resent -/
-theorem sendStored_recount (c : C) (hs : c.s.sendMax.isSome) (hlen : c.s.store.length ≤ 65535) :
+theorem sendStored_recount (c : C) (hs : c.s.sendMax.isSome) (hlen : c.s.store.length ≤ 4294967295) :
     (sendStored c).s.sendCount = (sendStored c).s.store.length := by
   have hsub := (sendStoredLoop_sub (resetCount c) c.s.store).length_le
   rw [sendStored_eq]
